@@ -88,6 +88,7 @@ class Gen:
         self.types = []           # t_ names known in this file
         self.tags = []            # s_ names
         self.members = []         # member names (stable pool so that chains look real)
+        self.avoid = set()        # features a caller does not want (known findings it cannot classify itself)
 
     # ------------------------------------------------------------ names
     def ident(self, prefix="", lo=1, hi=8, hostile=0.35):
@@ -258,7 +259,7 @@ class Gen:
             if r.random() < 0.5:
                 return [f]
             return [("(", "punct"), ("*", "op:un"), f, (")", "punct")]
-        if env.sptrs and x < 0.32:
+        if env.sptrs and x < 0.32 and "call_member" not in self.avoid:
             self.feats.add("call_member")
             return [(r.choice(env.sptrs), "id:var"), ("->", "op:member"), (self.member(), "id:member")]
         return [(r.choice(env.funcs), "id:func")]
